@@ -1305,29 +1305,26 @@ theorem collectLoop_infos (inc : Option String) (fuel : Nat) (c c' : Collect) (h
       · split at hr
         · cases hr
         · rename_i tree errors hparse
-          split at hr
-          · cases hr
-          · rename_i fileDir hdir
-            refine ih _ ?_ hr
-            refine InfosWF.set ?_ _ _ (parseFile_wf hparse)
-            -- the fold over the includes only assigns ids
-            generalize (listIncludes tree) = incs
-            have : ∀ (st : Collect × List ((Nat × Nat) × Nat)), InfosWF st.1.infos →
-                InfosWF (incs.foldl (fun (st : Collect × List ((Nat × Nat) × Nat)) inc' =>
-                  match st.1.resolveIncludeFile inc'.2 (fileDir :: (match inc with | some d => [d] | none => [])) with
-                  | (some id, c') => ({ c' with queue := c'.queue ++ [id] }, st.2 ++ [(inc'.1, id)])
-                  | (none, c') => (c', st.2)) st).1.infos := by
-              induction incs with
-              | nil => intro st hst; exact hst
-              | cons x t iht =>
-                intro st hst
-                simp only [List.foldl_cons]
-                apply iht
-                have := resolveIncludeFile_infos st.1 x.2 (fileDir :: (match inc with | some d => [d] | none => [])) hst
-                split
-                · rename_i heq; rw [heq] at this; exact this
-                · rename_i heq; rw [heq] at this; exact this
-            exact this _ h
+          refine ih _ ?_ hr
+          refine InfosWF.set ?_ _ _ (parseFile_wf hparse)
+          -- the fold over the includes only assigns ids
+          generalize (listIncludes tree) = incs
+          have : ∀ (st : Collect × List ((Nat × Nat) × Nat)), InfosWF st.1.infos →
+              InfosWF (incs.foldl (fun (st : Collect × List ((Nat × Nat) × Nat)) inc' =>
+                match st.1.resolveIncludeFile inc'.2 ((Path.parent (c.paths.getD fileId "")).toList ++ (match inc with | some d => [d] | none => [])) with
+                | (some id, c') => ({ c' with queue := c'.queue ++ [id] }, st.2 ++ [(inc'.1, id)])
+                | (none, c') => (c', st.2)) st).1.infos := by
+            induction incs with
+            | nil => intro st hst; exact hst
+            | cons x t iht =>
+              intro st hst
+              simp only [List.foldl_cons]
+              apply iht
+              have := resolveIncludeFile_infos st.1 x.2 ((Path.parent (c.paths.getD fileId "")).toList ++ (match inc with | some d => [d] | none => [])) hst
+              split
+              · rename_i heq; rw [heq] at this; exact this
+              · rename_i heq; rw [heq] at this; exact this
+          exact this _ h
 
 theorem buildWorkspace_treesWF {vfs : List (String × String)} {rootPath : String} {inc : Option String}
     {ws : Workspace} (h : buildWorkspace vfs rootPath inc = .ok ws) : ws.TreesWF := by
